@@ -63,6 +63,14 @@ Qed.
 Lemma product_elem_length gs c : In c (product gs) -> length c = length gs.
 Proof. intros H. apply product_In in H. induction H; cbn; congruence. Qed.
 
+Lemma combine_product_spec gs : gs <> [] ->
+  combine gs = product gs /\
+  length (combine gs) = prod_len gs /\
+  (forall c, In c (combine gs) <-> Forall2 (fun x g => In x g) c gs).
+Proof.
+  intros H. rewrite (combine_is_product gs H). split; [reflexivity|]. split; [apply product_length|apply product_In].
+Qed.
+
 (* lexicographic order: the candidate with digits (i, j...) sits at the mixed-radix index, last factor fastest *)
 Lemma product_index (g : list A) (r : list (list A)) i j (d : A) : i < length g -> j < length (product r) ->
   nth_error (product (g :: r)) (i * length (product r) + j) = option_map (cons (nth i g d)) (nth_error (product r) j).
